@@ -1,0 +1,91 @@
+//go:build verif
+
+// Package vorder is part of the verification hooks (build tag "verif"). The
+// map-order explorer builds pigeon with an overlay in which every
+// "for k, v := range m" over a map in packages ast and builder iterates over
+// vorder.Keys(site, m) instead, so that the harness decides the iteration
+// order. Nothing in the repository imports it without the overlay except the
+// hook server, which sets Choices and reads Log.
+package vorder
+
+import (
+	"fmt"
+	"sort"
+)
+
+// Site is one dynamic occurrence of a range-over-map statement.
+type Site struct {
+	ID string `json:"id"`
+	N  int    `json:"n"`
+}
+
+var (
+	// Choices[i] selects the order of the i-th dynamic site (0 = sorted).
+	Choices []int
+	// Log records the sites met since Reset.
+	Log []Site
+)
+
+// Reset installs the choices for the next request.
+func Reset(choices []int) {
+	Choices = choices
+	Log = nil
+}
+
+// Alternatives is the number of orders explored for a map with n keys: all
+// n! permutations up to 4 keys, otherwise the n rotations and the reversal.
+func Alternatives(n int) int {
+	switch {
+	case n <= 1:
+		return 1
+	case n <= 4:
+		f := 1
+		for i := 2; i <= n; i++ {
+			f *= i
+		}
+		return f
+	}
+	return n + 1
+}
+
+// Keys returns the keys of m in the order chosen for this dynamic site.
+func Keys[K comparable, V any](site string, m map[K]V) []K {
+	keys := make([]K, 0, len(m))
+	for k := range m {
+		keys = append(keys, k)
+	}
+	sort.Slice(keys, func(i, j int) bool { return fmt.Sprint(keys[i]) < fmt.Sprint(keys[j]) })
+	idx := len(Log)
+	Log = append(Log, Site{site, len(keys)})
+	c := 0
+	if idx < len(Choices) {
+		c = Choices[idx]
+	}
+	n := len(keys)
+	if c <= 0 || n <= 1 {
+		return keys
+	}
+	if n <= 4 {
+		// c-th permutation in lexicographic order
+		pool := append([]K(nil), keys...)
+		out := make([]K, 0, n)
+		f := Alternatives(n)
+		c %= f
+		for i := n; i >= 1; i-- {
+			f /= i
+			j := c / f
+			c %= f
+			out = append(out, pool[j])
+			pool = append(pool[:j], pool[j+1:]...)
+		}
+		return out
+	}
+	if c >= n {
+		out := make([]K, n)
+		for i, k := range keys {
+			out[n-1-i] = k
+		}
+		return out
+	}
+	return append(append([]K(nil), keys[c:]...), keys[:c]...)
+}
